@@ -115,6 +115,11 @@ func runC08(c *Ctx) {
 					// pending they are outside the statements ("once no write is pending"); see C10
 					continue
 				}
+				if !indexedUnder(cfg, "A") && usesCall(th, "assignindex") {
+					// AssignIndex(A) is an error where A carries no index: the sequential reference
+					// of the linearizability oracle describes the indexed case only
+					continue
+				}
 				prog := Prog{Cfg: cfg, Setup: setup, Cold: cold, Threads: th, Ticks: ticks, Atomic: os.Getenv("C08_ATOMIC") != ""}
 				if os.Getenv("C08_BOUND") != "" {
 					fmt.Sscan(os.Getenv("C08_BOUND"), &bound)
@@ -217,6 +222,17 @@ func multiPhase(th [][]Call) bool {
 		for _, c := range t {
 			switch c.Name {
 			case "delall", "sdel", "count", "many", "collect", "andor", "deleteobjects", "close", "repair", "create":
+				return true
+			}
+		}
+	}
+	return false
+}
+
+func usesCall(th [][]Call, name string) bool {
+	for _, t := range th {
+		for _, c := range t {
+			if c.Name == name {
 				return true
 			}
 		}
